@@ -19,7 +19,7 @@ TNew == /\ Consume("New")
         /\ conn' = "none" /\ connT' = 0 /\ rStart' = -1000 /\ rCount' = 0
         /\ peer' = "open" /\ pollm' = "ready" /\ openm' = "ok" /\ clock' = 0
         /\ usedIds' = {} /\ ret' = [r \in Reqs |-> 0] /\ arrived' = [r \in Reqs |-> FALSE] /\ early' = [r \in Reqs |-> FALSE]
-        /\ xdone' = {}
+        /\ xdone' = {} /\ pushed' = FALSE /\ cfg' = 0
         /\ out' = [op |-> "init"]
         /\ Done
 
@@ -33,6 +33,7 @@ TRun == /\ Consume("Run")
         /\ out'.hstate = Ev.hstate
         /\ out'.hcause = Cause(Ev.hcause)
         /\ out'.hsig = Ev.hsig
+        /\ out'.hcfg = Ev.hcfg
         /\ out'.waiting = Ev.waiting /\ out'.pending = Ev.pending /\ out'.received = Ev.received
         /\ \A i \in DOMAIN Ev.states : st'[Ev.states[i][1]] = Ev.states[i][2]
         /\ Done
